@@ -361,3 +361,28 @@ V("C14-t1", "C14", (EITEM, "        if key in ('name', '_origin_reference', '_co
   "silent", "wider invalidation set")
 V("C14-t2", "C14", [(EITEM, "    @cached_property\n    def obname(self) -> bytes:", "    @property\n    def obname(self) -> bytes:")], "silent",
   "OBNAME not memoised at all")
+
+# ---------------------------------------------------------------------------------------------- C09
+SETS = "file/eflr_sets_dict.py"
+V("C09-b1", "C09", (FILE, "            yield from logical_file._eflr_sets[eflr_types.OriginSet].values()\n\n", "\n"), "R09.1",
+  "origin sets not emitted right after the header")
+V("C09-b2", "C09", (FILE, "                if set_type not in (eflr_types.FileHeaderSet, eflr_types.OriginSet):", "                if set_type not in (eflr_types.FileHeaderSet,):"),
+  "R09.1", "origin sets emitted twice")
+V("C09-b3", "C09", (FILE, "            yield from logical_file._no_format_frame_data\n\n            for multi_frame_data in multi_frame_data_objects[idx_lf]:\n                yield from multi_frame_data",
+                    "            for multi_frame_data in multi_frame_data_objects[idx_lf]:\n                yield from multi_frame_data\n\n            yield from logical_file._no_format_frame_data"),
+  "silent", "frame data before no-format data: both are IFLRs after all sets (order between them is not mandated)")
+V("C09-b4", "C09", (FILE, "        for idx_lf, logical_file in enumerate(self.logical_files):\n            yield logical_file.file_header_item.parent",
+                    "        for idx_lf, logical_file in enumerate(sorted(self.logical_files, key=lambda lf: lf.file_header.sequence_number)):\n            yield logical_file.file_header_item.parent"),
+  "R09.1", "logical files ordered by header sequence number; frame data indexed by position (agent mutant C18-m2)")
+V("C09-b5", "C09", (SETS, "        if eflr_set_instance is None:\n            eflr_set_instance = eflr_set_type(set_name=set_name)\n            eflr_set_dict[set_name] = eflr_set_instance",
+                    "        if eflr_set_instance is None or not eflr_set_instance.n_items:\n            eflr_set_instance = eflr_set_type(set_name=set_name)\n            eflr_set_dict[set_name] = eflr_set_instance"),
+  "R09.2", "an existing empty set is replaced by a new object in the file-level registry")
+V("C09-b6", "C09", (FILE, "            file_id=self.file_header.header_id,\n", "            file_id=name,\n"), "R09.5", "FILE-ID taken from the origin's name")
+V("C09-b7", "C09", (FILE, "            if do.file_id.value != fh_id:\n                raise ValueError(", "            if do.file_id.value != fh_id:\n                logger.warning("),
+  "R09.5", "FILE-ID mismatch only warned about")
+V("C09-b8", "C09", (FH, "        bts += get_ascii_bytes(self.header_id, 65, justify_left=True)", "        bts += get_ascii_bytes(self.header_id, 65, justify_left=False)"),
+  "R09.4", "header id right-justified")
+V("C09-b9", "C09", (ORIGIN, "                self.file_set_number.value = v\n", "                pass\n"), "R09.5", "no random FILE-SET-NUMBER assigned")
+V("C09-t1", "C09", (FILE, "            for set_type, set_dict in logical_file._eflr_sets.items():\n                if set_type not in (eflr_types.FileHeaderSet, eflr_types.OriginSet):\n                    yield from set_dict.values()",
+                    "            for set_type, set_dict in logical_file._eflr_sets.items():\n                if set_type in (eflr_types.FileHeaderSet, eflr_types.OriginSet):\n                    continue\n                yield from set_dict.values()"),
+  "silent", "continue form")
